@@ -1,6 +1,14 @@
 import Abyss.Props.C03
 import Abyss.Props.C03Snapshot
 import Abyss.Props.C03Db
+import Abyss.Props.RaBufP
+import Abyss.Props.RaBufMap
+import Abyss.Props.C03Rb
+#print axioms Abyss.C16_recovered_image_rb
+#print axioms Abyss.RaBuf.C16_map_faults
+#print axioms Abyss.RaBuf.C16_chunk_faults
+#print axioms Abyss.RaBuf.C16_chunk_write_error
+#print axioms Abyss.RaBuf.flush_ok_counter
 #print axioms Abyss.Buf.C16_db_reported
 #print axioms Abyss.C16_recovered_image
 #print axioms Abyss.Buf.C16_reported
